@@ -121,8 +121,10 @@ Definition f_key (b : Z) : Z := if f_sign b =? 1 then - (b - two63) else b.
 (* Go `<=` on float64: false as soon as one side is NaN *)
 Definition f_le (a b : Z) : bool := negb (f_is_nan a) && negb (f_is_nan b) && (f_key a <=? f_key b).
 
-Definition max_float64_bits : Z := 9218868437227405311.      (* 0x7FEFFFFFFFFFFFFF *)
-Definition neg_max_float64_bits : Z := 18442240474082181119.  (* 0xFFEFFFFFFFFFFFFF *)
+Definition inf_bits : Z := 9218868437227405312.              (* 0x7FF0000000000000, math.Inf(1) *)
+Definition neg_inf_bits : Z := 18442240474082181120.         (* 0xFFF0000000000000, math.Inf(-1) *)
+(* floattype.go:210 IsUnbounded: min is -Inf and max is +Inf *)
+Definition f_unbounded (lo hi : Z) : bool := (lo =? neg_inf_bits) && (hi =? inf_bits).
 Definition max_float32_bits : Z := 5183643170566569984.      (* 0x47EFFFFFE0000000 *)
 Definition neg_max_float32_bits : Z := 14407015207421345792.  (* 0xC7EFFFFFE0000000 *)
 
@@ -260,7 +262,7 @@ Fixpoint ptype_of (t : gty) : ty :=
   match t with
   | GInt k => primitive_ptype k
   | GFloat32 => TFloat neg_max_float32_bits max_float32_bits
-  | GFloat64 => TFloat neg_max_float64_bits max_float64_bits
+  | GFloat64 => TFloat neg_inf_bits inf_bits               (* DefaultFloatType: Float[-Inf, +Inf], the unbounded type *)
   | GString => TString
   | GBool => TBoolean
   | GSlice (GInt KUint8) => TBinary         (* :843 wellKnown[[]byte] (zinit.go, fix 61e98a6) *)
@@ -271,13 +273,13 @@ Fixpoint ptype_of (t : gty) : ty :=
   | GIface => TAny
   end.
 
-(* IsInstance of the types above (integertype.go:233, floattype.go:153, arraytype.go:193, hashtype.go:295,
+(* IsInstance of the types above (integertype.go:233, floattype.go:157, arraytype.go:193, hashtype.go:295,
    optionaltype.go:99, objecttype.go:686; String/Boolean/Binary/Any: by the Go type of the value) *)
 Fixpoint inst (t : ty) (v : value) {struct t} : bool :=
   match t with
   | TAny => true
   | TInteger lo hi => match v with VInt z => (lo <=? z) && (z <=? hi) | _ => false end
-  | TFloat lo hi => match v with VFloat b => f_le lo b && f_le b hi | _ => false end
+  | TFloat lo hi => match v with VFloat b => (f_le lo b && f_le b hi) || f_unbounded lo hi | _ => false end   (* NaN: the unbounded type only *)
   | TString => match v with VStr _ => true | _ => false end
   | TBoolean => match v with VBool _ => true | _ => false end
   | TBinary => match v with VBinary _ => true | _ => false end
@@ -552,11 +554,12 @@ Fixpoint rt_ok (w : bool) (t : gty) (v : gval) {struct v} : bool :=
   end.
 
 (* acc_ok w t v: none of the input classes on which the derived type is known to REJECT the wrapped value:
-   uint64-ge-2^63, float-nonfinite, nil-slice-map-undef *)
+   uint64-ge-2^63, float32-nonfinite (a float32 that is NaN or an infinity: its type is the range of the finite
+   float32 values; float64 has no exclusion), nil-slice-map-undef *)
 Fixpoint acc_ok (w : bool) (t : gty) (v : gval) {struct v} : bool :=
   match v with
   | GVInt z => match t with GInt KUint | GInt KUint64 => z <? two63 | _ => true end
-  | GVFloat b => f_finite b
+  | GVFloat b => match t with GFloat32 => f_finite b | _ => true end
   | GVSlice None => w && (fast_slice_elem (elem_ty t) || is_u8 (elem_ty t))
   | GVSlice (Some es) => forallb (acc_ok true (elem_ty t)) es
   | GVMap None => w && fast_map (key_ty t) (elem_ty t)
@@ -771,7 +774,7 @@ Fixpoint obj_ok (fs : list gfield) (vs : list gval) {struct fs} : bool :=
 Fixpoint plain_value (t : gty) (v : gval) {struct v} : bool :=
   match v with
   | GVInt z => match t with GInt KUint | GInt KUint64 => z <? two63 | _ => true end
-  | GVFloat b => f_finite b
+  | GVFloat b => match t with GFloat32 => f_finite b | _ => true end
   | GVSlice None | GVMap None => false
   | GVSlice (Some es) => forallb (plain_value (elem_ty t)) es
   | GVMap (Some kvs) => forallb (fun kv => plain_value (key_ty t) (fst kv) && plain_value (elem_ty t) (snd kv)) kvs
